@@ -43,7 +43,15 @@ def correspondence(ctx):
         for note in c['notes']:
             if note.startswith('write_fp raised') and c['wrecked'] is None:
                 exc = note.split()[2].rstrip(':')
-                offs = [op[3] for op, code, _ in c['steps'] if op[0] == 'AddHybrid' and code == 1]
+                # the hybridization in effect at the FIRST write that raised
+                offs = []
+                for op, code, _ in c['steps']:
+                    if op[0] == 'AddHybrid' and code == 1:
+                        offs = [op[3]]
+                    elif op[0] == 'RmHybrid' or (op[0] == 'RmEltorito' and code == 1):
+                        offs = []
+                    elif op[0] == 'Write' and code != 1:
+                        break
                 if exc == 'error' and "'L' format" in note and offs and offs[-1] > 0:
                     # the accepted partition offset lies beyond the cylinder-padded image: negative partition size
                     ctx.violation('c12:write-fails:partition-offset-beyond-padded-image',
